@@ -531,6 +531,29 @@ def directed_pngquant_declines(w):
     return [([setk("color_format", "cbdt"), setk("bitmap_resolution", 32), setk("use_pngquant", True)], None), ([modify_and_decline], None)]
 
 
+def directed_decline_then_compress(w):
+    """round 7: quantised and recompressed bitmaps; then the quantiser starts declining every file (exit 99, with other
+    flags) while recompression is switched off; then recompression is switched on again. The recompressed files of the
+    first run are older commands' outputs of other inputs: they must be redone (a wrapper that hands on the unquantised
+    bitmap WITH ITS OLD TIMESTAMP makes ninja think they are current)"""
+    def setk(k, v):
+        def f(w):
+            w.opts[k] = v
+            w.log.append(dict(op="setopt", key=k, value=v))
+
+        return f
+
+    def decline_everything(w):
+        w.behaviour = dict(tool="pngquant", target="", exit=99)
+        w.log.append(dict(op="pngquant declines every file from now on (exit 99)", tool_behaviour=w.behaviour))
+
+    return [
+        ([setk("color_format", "cbdt"), setk("bitmap_resolution", 32), setk("use_pngquant", True), setk("use_zopflipng", True), setk("pngquant_flags", "--quality 0-40")], None),
+        ([decline_everything, setk("pngquant_flags", "--speed 3"), setk("use_zopflipng", False)], None),
+        ([setk("use_zopflipng", True)], None),
+    ]
+
+
 def directed_torn_graph(w):
     """the driver is killed while it writes build.ninja (after the resolved config is on disk); the next invocation
     must rebuild the graph"""
@@ -584,7 +607,7 @@ def main(argv):
     n = 6 if tier == "quick" else 120
     seeds = [rng.getrandbits(40) for _ in range(n)]
     jobs = [(s, rng.randint(2, 4 if tier == "quick" else 6), None) for s in seeds]
-    jobs += [(rng.getrandbits(40), 0, directed_f17), (rng.getrandbits(40), 0, directed_f17_silent), (rng.getrandbits(40), 0, directed_f7), (rng.getrandbits(40), 0, directed_options), (rng.getrandbits(40), 0, directed_bitmap), (rng.getrandbits(40), 0, directed_bitmap_options), (rng.getrandbits(40), 0, directed_variable_font), (rng.getrandbits(40), 0, directed_pngquant_declines), (rng.getrandbits(40), 0, directed_torn_graph), (rng.getrandbits(40), 0, directed_switch_dir)]
+    jobs += [(rng.getrandbits(40), 0, directed_f17), (rng.getrandbits(40), 0, directed_f17_silent), (rng.getrandbits(40), 0, directed_f7), (rng.getrandbits(40), 0, directed_options), (rng.getrandbits(40), 0, directed_bitmap), (rng.getrandbits(40), 0, directed_bitmap_options), (rng.getrandbits(40), 0, directed_variable_font), (rng.getrandbits(40), 0, directed_pngquant_declines), (rng.getrandbits(40), 0, directed_decline_then_compress), (rng.getrandbits(40), 0, directed_torn_graph), (rng.getrandbits(40), 0, directed_switch_dir)]
     with ThreadPoolExecutor(8) as ex:
         results = list(ex.map(lambda j: run_history(*j), jobs))
     known = known_ids("C09")
